@@ -28,6 +28,17 @@ MANIFEST = dict(
     technique="TLA+/TLC exhaustive model + liveness; replay of every TLC transition (edge cover), of simulated behaviours and of TLC "
               "counterexamples into the real syncer; seeded end-to-end driver with the property predicates")
 SPEC_DIR = os.path.join(vlib.SPEC, "sync")
+LOCK = threading.Lock()      # Check objects are filled from several threads
+
+
+def req_ok(c, res, what):
+    with LOCK:
+        c.require_ok(res, what)
+
+
+def absorb(c, outpath, output):
+    with LOCK:
+        return c.absorb_go(outpath, output)
 
 GEN_PARAMS = dict(NPeers=2, ChunkSize=2, HashReq=2, MaxTasks=2, MaxPendingConn=2, MaxFail=2, Skip=2, MaxAnchors=2)
 
@@ -227,7 +238,8 @@ def simulate(c, cfg, num, depth, tag):
         b = behaviour_from_sim(parse_sim_file(os.path.join(pre, fn)), "%s-%s" % (tag, fn))
         if b:
             bs.append(b)
-    c.configs.append(dict(cfg=cfg, what="simulation (%s): %d behaviours, depth<=%d" % (tag, len(bs), depth), wall_s=round(res.wall, 1)))
+    with LOCK:
+        c.configs.append(dict(cfg=cfg, what="simulation (%s): %d behaviours, depth<=%d" % (tag, len(bs), depth), wall_s=round(res.wall, 1)))
     return bs
 
 
@@ -244,13 +256,13 @@ def cfg_params(cfgname):
 
 def run_harness(c, params, behaviours, tag, par=24, timeout=3000):
     vlib.log("[c17] replaying %d behaviours (%s) t=%.0fs" % (len(behaviours), tag, time.time() - c.t0))
-    inp = dict(params=params, behaviours=behaviours, par=par, restart_every=1 if c.tier == "thorough" else 3)
+    inp = dict(params=params, behaviours=behaviours, par=par, restart_every=1 if c.tier == "thorough" else 4)
     inpath = os.path.join(c.work, "syncer_in_%s.json" % tag)
     json.dump(inp, open(inpath, "w"))
     outpath = os.path.join(c.work, "syncer_out_%s.json" % tag)
     rc, output = vlib.go_test("./syncer/", "^TestVerifSyncer$", env={"VERIF_IN": inpath, "VERIF_OUT": outpath,
                               "VERIF_SEED": c.seed, "VERIF_TIER": c.tier}, timeout=timeout)
-    r = c.absorb_go(outpath, output)
+    r = absorb(c, outpath, output)
     if rc != 0 and not r.get("violations"):
         raise vlib.Infra("harness failed:\n" + output[-3000:])
     div = (r.get("extra") or {}).get("divergences", 0)
@@ -298,7 +310,7 @@ def run_e2e(c, scenarios):
     outpath = os.path.join(c.work, "syncer_e2e_out.json")
     rc, output = vlib.go_test("./syncer/", "^TestVerifSyncerE2E$", env={"VERIF_IN": inpath, "VERIF_OUT": outpath,
                               "VERIF_SEED": c.seed, "VERIF_TIER": c.tier}, timeout=3000)
-    r = c.absorb_go(outpath, output)
+    r = absorb(c, outpath, output)
     if rc != 0 and not r.get("violations"):
         raise vlib.Infra("e2e harness failed:\n" + output[-3000:])
     if (r.get("extra") or {}).get("divergences") and not r.get("violations"):
@@ -320,47 +332,59 @@ def behaviour_from_error_trace(res, bid):
     return dict(id=bid, ch=ch, steps=steps)
 
 
-RACES = [("Race_Syncer_finder.cfg", "hashbyno-response-after-finder-timeout",
-          "a GetHashByNoRsp queued ahead of the SyncStop of a finder that has timed out: Finder.GetHashByNoRsp sends on fScanCh, "
-          "which nobody receives from any more"),
-         ("Race_Syncer_buffer.cfg", "responses-for-ended-blockfetcher-exceed-buffer",
-          "more than 2*maxBlockReqTasks responses queued ahead of the SyncStop of a block fetcher that has ended: "
-          "BlockFetcher.handleBlockRsp sends on the full responseCh, which nobody reads any more")]
+RACES = [("Race_Syncer_finder.cfg", "TrapLateFinderRsp", "hashbyno-response-after-finder-timeout",
+          "a GetHashByNoRsp queued ahead of the SyncStop of a finder that has timed out (Finder.GetHashByNoRsp must drop it; "
+          "before bcac7c21 it sent on fScanCh, which nobody receives from any more)"),
+         ("Race_Syncer_buffer.cfg", "TrapBufferOverflow", "responses-for-ended-blockfetcher-exceed-buffer",
+          "more than 2*maxBlockReqTasks responses queued ahead of the SyncStop of a block fetcher that has ended "
+          "(BlockFetcher.handleBlockRsp must drop what does not fit; before 9f6c2e3b it sent on the full responseCh, which nobody reads any more)")]
 
 
 def race_hunt(c):
-    return [(cfg, name, what, vlib.tlc(SPEC_DIR, "MC_Syncer", cfg, os.path.join(c.work, "race"), workers=2, timeout=1500)) for cfg, name, what in RACES]
+    """The two late-message schedules, found by TLC as counterexamples of 'trap' invariants of the (repaired) model."""
+    return [(cfg, trap, name, what, vlib.tlc(SPEC_DIR, "MC_Syncer", cfg, os.path.join(c.work, "race"), workers=2, timeout=1500))
+            for cfg, trap, name, what in RACES]
 
 
 def race_replays(c, hunted):
-    """TLC finds the schedules in which the actor goroutine blocks forever (the model with the two 'late message' races
-    enabled); each counterexample is replayed on the real syncer.  A reproduced block is a violation (never deadlocks)."""
-    for cfg, name, what, res in hunted:
-        c.add_tlc(res, "race hunt %s (expected: NoActorBlock violated)" % cfg)
-        if res.violation != "NoActorBlock" or not res.error_trace:
-            raise vlib.Infra("race hunt %s did not produce the expected counterexample (%s)\n%s" % (cfg, res.violation, res.out[-2000:]))
-        b = behaviour_from_error_trace(res, "race-" + name)
-        inpath = os.path.join(c.work, "syncer_in_race.json")
-        json.dump(dict(params=cfg_params(cfg), behaviours=[b], par=1), open(inpath, "w"))
-        outpath = os.path.join(c.work, "syncer_out_race.json")
-        if os.path.exists(outpath):
-            os.remove(outpath)
-        rc, output = vlib.go_test("./syncer/", "^TestVerifSyncer$", env={"VERIF_IN": inpath, "VERIF_OUT": outpath,
-                                  "VERIF_SEED": c.seed, "VERIF_TIER": c.tier}, timeout=600)
-        if not os.path.exists(outpath):
-            raise vlib.Infra("race replay wrote no result:\n" + output[-3000:])
-        r = json.load(open(outpath))
-        c.count("race-" + name)
-        vs = r.get("violations") or []
-        blocked = [v for v in vs if v.get("sig", {}).get("kind") == "actor-blocked"]
-        if blocked:
-            c.violation(dict(kind="actor-blocked", race=name), dict(behaviour=b, config=cfg),
-                        "the syncer actor blocks forever: %s.\n%s" % (what, blocked[0]["text"][:2500]))
+    """Both schedules are replayed on the real syncer: the actor must not block, the model's state must be matched after every
+    message, the session must end and a fresh session must start and succeed.  A blocked actor is a violation."""
+    bs = []
+    for cfg, trap, name, what, res in hunted:
+        with LOCK:
+            c.add_tlc(res, "schedule finder %s (expected: trap %s reached)" % (cfg, trap))
+        if res.violation != trap or not res.error_trace:
+            raise vlib.Infra("%s did not produce the expected schedule (%s)\n%s" % (cfg, res.violation, res.out[-2000:]))
+        bs.append(behaviour_from_error_trace(res, "race-" + name))
+    params = cfg_params(RACES[0][0])
+    if any(cfg_params(r[0]) != params for r in RACES):
+        raise vlib.Infra("the race configurations must share the syncer parameters")
+    inpath = os.path.join(c.work, "syncer_in_race.json")
+    json.dump(dict(params=params, behaviours=bs, par=2, restart_every=1), open(inpath, "w"))
+    outpath = os.path.join(c.work, "syncer_out_race.json")
+    rc, output = vlib.go_test("./syncer/", "^TestVerifSyncer$", env={"VERIF_IN": inpath, "VERIF_OUT": outpath,
+                              "VERIF_SEED": c.seed, "VERIF_TIER": c.tier}, timeout=600)
+    if not os.path.exists(outpath):
+        raise vlib.Infra("race replay wrote no result:\n" + output[-3000:])
+    r = json.load(open(outpath))
+    by_id = {"race-" + name: (name, what) for _cfg, _trap, name, what in RACES}
+    for b in bs:
+        c.count(b["id"])
+    vs = r.get("violations") or []
+    for v in vs:
+        bid = ((v.get("replay") or {}).get("behaviour") or {}).get("id")
+        sig = dict(v.get("sig") or {})
+        if sig.get("kind") == "actor-blocked" and bid in by_id:
+            name, what = by_id[bid]
+            c.violation(dict(kind="actor-blocked", race=name), dict(behaviour=bid, schedule=[st["act"] for st in v["replay"]["behaviour"]["steps"]]),
+                        "the syncer actor blocks forever: %s.\n%s" % (what, v.get("text", "")[:2500]))
         else:
-            for v in vs:
-                c.violation(v.get("sig", {}), v.get("replay", {}), v.get("text", ""))
-            if not vs:
-                c.notes.append("race %s: not reproduced on the real code (%s)" % (name, "; ".join((r.get("notes") or [])[:1])[:300]))
+            c.violation(sig, v.get("replay", {}), v.get("text", ""))
+    div = (r.get("extra") or {}).get("divergences", 0)
+    if div and not vs:
+        raise vlib.Infra("race replay: the real syncer left the model:\n%s" % "\n".join(n for n in (r.get("notes") or []) if n.startswith("DIVERGENCE"))[:3000])
+    if not vs:
+        c.notes.append("late-message schedules replayed: actor not blocked, sessions ended, fresh sessions succeeded (%s)" % ", ".join(b["id"] for b in bs))
 
 
 def recv_check(c):
@@ -368,7 +392,7 @@ def recv_check(c):
     for kind in ("blocks", "hashes"):
         cfg = "MC_ChunkRecv_%s.cfg" % kind
         res = vlib.tlc(SPEC_DIR, "MC_ChunkRecv", cfg, os.path.join(c.work, "recv"), workers=1, timeout=900)
-        c.require_ok(res, "response receiver design + transition enumeration (%s)" % kind)
+        req_ok(c, res, "response receiver design + transition enumeration (%s)" % kind)
         trs = vlib.parse_transitions(res.out)
         if len(trs) < 1000:
             raise vlib.Infra("too few receiver transitions: %d" % len(trs))
@@ -411,7 +435,7 @@ def recv_check(c):
             shutil.copytree(os.path.join(vlib.REPO, "p2p", "test", "sample"), os.path.join(rt, "test", "sample"))
         rc, output = vlib.go_test("./p2p/", "^TestVerifSyncRecv$", env={"VERIF_IN": inpath, "VERIF_OUT": outpath,
                                   "VERIF_SEED": c.seed, "VERIF_TIER": c.tier}, timeout=1500, cwd=rt)
-        r = c.absorb_go(outpath, output)
+        r = absorb(c, outpath, output)
         if rc != 0 and not r.get("violations"):
             raise vlib.Infra("receiver harness failed:\n" + output[-3000:])
         if (r.get("extra") or {}).get("divergences") and not r.get("violations"):
@@ -420,7 +444,7 @@ def recv_check(c):
 
 def graph_behaviours(c, cfg, rng, tag, min_trs):
     gen = vlib.tlc(SPEC_DIR, "MC_Syncer", cfg, os.path.join(c.work, "gen_" + tag), workers=1, timeout=2400)
-    c.require_ok(gen, "Syncer transition enumeration (%s)" % cfg)
+    req_ok(c, gen, "Syncer transition enumeration (%s)" % cfg)
     trs = parse_gen(gen.out)
     if len(trs) < min_trs:
         raise vlib.Infra("too few transitions generated by %s: %d" % (cfg, len(trs)))
@@ -436,37 +460,44 @@ def graph_behaviours(c, cfg, rng, tag, min_trs):
 def run(c):
     rng = random.Random(c.seed)
     c.rule = ("a case is one model behaviour (sequence of messages handled by the syncer actor, with faults, timeouts and stop "
-              "requests) replayed on the real Syncer, completed honestly and followed by a fresh session, or one end-to-end scenario "
-              "against real chain services; distinct = distinct behaviours / scenarios")
+              "requests) replayed on the real Syncer, completed honestly and followed by a fresh session, one response-part sequence "
+              "replayed on a p2p receiver, or one end-to-end scenario against real chain services; distinct = distinct cases")
     c.assumptions = ["replay: chain service and peers are harness stubs; the sync peer answers ancestor/hash queries honestly or fails",
                      "responses are delivered one at a time after the syncer's goroutines became quiescent (message-level interleaving only)",
                      "fetch-task timeouts emulated by back-dating FetchTask.started; finder/hash-fetcher timeouts by short real timers",
                      "e2e: real chain.ChainService on memorydb with a stub consensus and the VM stub; TLC 1.8.0"]
     thorough = c.tier == "thorough"
-    # 1. exhaustive design-level checks, in the background while the replays run
-    mcs = [("MC_Syncer.cfg", "Syncer design: one session, all chain pairs (local<=2, remote<=4), <=2 faults, stop request, multi-expiry"),
+    e2e = e2e_scenarios(c.tier, random.Random(c.seed * 31 + 7))
+    # A. exhaustive design-level checks (background)
+    mcs = [("MC_Syncer.cfg", "Syncer design: one session, all chain pairs (local<=2, remote<=4), <=2 faults, stop request, multi-expiry, late messages"),
            ("MC_Syncer_restart.cfg", "Syncer design: two sessions (stale messages, sequence-less AddBlockRsp, restart), <=1 fault"),
            ("MC_Syncer_live.cfg", "Syncer liveness: Terminates under fairness (small instance)")]
     if thorough:
-        mcs.append(("MC_Syncer_big.cfg", "Syncer design, larger instance"))
-    mc_results = []
-    hunted = []
+        mcs.append(("MC_Syncer_big.cfg", "Syncer design, larger instance: two sessions, local<=2, remote<=5, <=2 faults"))
+    mc_results, hunted, errors = [], [], []
 
     def mc_thread():
         try:
             hunted.extend(race_hunt(c))
-        except Exception as e:
-            hunted.append(e)
-        for cfg, what in mcs:
-            try:
-                mc_results.append((vlib.tlc(SPEC_DIR, "MC_Syncer", cfg, os.path.join(c.work, "mc"), workers=6 if not thorough else 10,
+            for cfg, what in mcs:
+                mc_results.append((vlib.tlc(SPEC_DIR, "MC_Syncer", cfg, os.path.join(c.work, "mc"), workers=5 if not thorough else 8,
                                             timeout=5400, heap="12g" if thorough else None), what))
-            except Exception as e:      # reported below
-                mc_results.append((e, what))
-    th = threading.Thread(target=mc_thread)
-    th.start()
+        except Exception as e:
+            errors.append(e)
+
+    # B. p2p receivers and the end-to-end scenarios (background; other packages, other test binaries)
+    def aux_thread():
+        try:
+            recv_check(c)
+            run_e2e(c, e2e)
+        except Exception as e:
+            errors.append(e)
+
+    ths = [threading.Thread(target=mc_thread), threading.Thread(target=aux_thread)]
+    for th in ths:
+        th.start()
     try:
-        # 2. every transition of two small instances, as edge covers of paths from the initial states
+        # C. every transition of two small instances, as edge covers of paths from the initial states
         bs, n1 = graph_behaviours(c, "Gen_Syncer.cfg", rng, "g", 5000)
         run_harness(c, cfg_params("Gen_Syncer.cfg"), bs, "gen")
         note = "all %d transitions of Gen_Syncer.cfg (one session, light+full scan, <=1 fault, stop request) in %d paths" % (n1, len(bs))
@@ -476,28 +507,24 @@ def run(c):
             run_harness(c, cfg_params(ocfg), bs, "ord")
             note += "; all %d transitions of %s (every response order over two hash sets, 3 peers) in %d paths" % (n2, ocfg, len(bs))
         c.exhaustive = True
-        c.extra["exhaustive_note"] = "exhaustive over the generation instances: " + note + "; simulated behaviours and e2e scenarios are sampled"
-        # 3. simulated behaviours of a larger instance (two sessions, 3 peers, <=4 faults)
+        c.extra["exhaustive_note"] = ("exhaustive over the generation instances: " + note + "; all transitions of the two receiver "
+                                      "instances; simulated behaviours and e2e scenarios are sampled")
+        # D. simulated behaviours of a larger instance (two sessions, 3 peers, <=4 faults)
         if not c.violations:
-            bs2 = simulate(c, "Sim_Syncer.cfg", 750 if thorough else 60, 60, "sim")
+            bs2 = simulate(c, "Sim_Syncer.cfg", 750 if thorough else 30, 60, "sim")
             run_harness(c, cfg_params("Sim_Syncer.cfg"), bs2, "sim")
-        # 3b. p2p side: the response receivers
-        if not c.violations:
-            vlib.log("[c17] receivers t=%.0fs" % (time.time() - c.t0))
-            recv_check(c)
-        # 4. end-to-end against real chain services (real anchor constants, real findAncestor, real AddBlock/reorg)
-        if not c.violations:
-            run_e2e(c, e2e_scenarios(c.tier, rng))
     finally:
-        th.join()
-    # 5. the schedules in which TLC sees the actor block forever, replayed on the real code
-    if not c.violations and not os.environ.get("VERIF_C17_SKIP_RACES"):     # (switch for demonstrations only)
-        if not hunted or isinstance(hunted[-1], Exception):
-            raise vlib.Infra("race hunt failed: %s" % (hunted[-1:] or "did not run"))
+        for th in ths:
+            th.join()
+    for e in errors:
+        if isinstance(e, vlib.Infra) and c.violations:
+            continue            # a violation was reproduced on the real code; that is the verdict
+        raise e if isinstance(e, vlib.Infra) else vlib.Infra("background work failed: %r" % (e,))
+    # E. the two late-message schedules (in which the unrepaired code blocked the actor forever), replayed on the real code
+    if not c.violations:
+        vlib.log("[c17] late-message schedules t=%.0fs" % (time.time() - c.t0))
         race_replays(c, hunted)
     for res, what in mc_results:
-        if isinstance(res, Exception):
-            raise vlib.Infra("TLC run '%s' failed: %s" % (what, res))
         c.require_ok(res, what)
     if len(mc_results) != len(mcs):
         raise vlib.Infra("design-level model checking did not run")
